@@ -24,7 +24,7 @@ RULE = ("token leg: account/password of printable ASCII (incl. + & = % space) or
         "another type; success when an ok comes within the budget. Discovery leg: a V3 model device accepting only the "
         "credentials registered for udpid(id bytes, little or big endian) + the model cloud + Discover.discover(auto_connect=True): "
         "device token/key == registered pair, online, genuine handshake seen; for big endian the little-endian attempt failed "
-        "first. Non-trivial: token list with >= 2 entries and a near miss before the match, or a fault sequence with >= 1 retry, "
+        "first; variant: the cloud fails during a first Discover.connect() and has recovered when the user retries. Non-trivial: token list with >= 2 entries and a near miss before the match, or a fault sequence with >= 1 retry, "
         "or big-endian registration. Distinct by case.")
 ASSUMPTIONS = ["accounts and passwords are ASCII (the derivations encode with 'ASCII'); malformed JSON is not in the fault alphabet",
                "signature = sha256(path + '&'-joined sorted 'k=v' of the decoded form fields + app key), the public NetHome Plus scheme"]
@@ -163,9 +163,26 @@ def check_discovery(case: dict):
         discsim.UdpWorld(net, [dict(ip=h["ip"], listen_port=6445, replies=[(0.05, 6445, discsim.good_reply(h))])])
         dev = SimDevice(loop, version=3, device_id=dev_id, token=token, key=key, ac=ModelAC())
         net.listen(h["ip"], h["port"], dev)
+        kw = {"account": acct, "password": pw} if acct else {"region": case.get("region", "US")}
         try:
-            devs = await Discover.discover(auto_connect=True, timeout=5, get_async_client=mc.client_factory(),
-                                           **({"account": acct, "password": pw} if acct else {"region": case.get("region", "US")}))
+            if case.get("outage"):
+                # the cloud is unreachable at first: discovery without auto-connect, a connect attempt that fails with a
+                # cloud error, then (cloud recovered) the user retries the connect
+                from msmart.cloud import CloudError
+                devs = await Discover.discover(auto_connect=False, timeout=5, get_async_client=mc.client_factory(), **kw)
+                mc.fault_script = {k: list(v) for k, v in case["outage"].items()}
+                for d in devs:
+                    try:
+                        await Discover.connect(d)
+                        res["outage_result"] = "connected"
+                    except CloudError as e:
+                        res["outage_result"] = "clouderror"
+                mc.fault_script = {}
+                mc.posts.clear()
+                for d in devs:
+                    res["retry"] = await Discover.connect(d)
+            else:
+                devs = await Discover.discover(auto_connect=True, timeout=5, get_async_client=mc.client_factory(), **kw)
             res["devs"] = devs
         except BaseException as e:
             res["exc"] = e
@@ -184,6 +201,8 @@ def check_discovery(case: dict):
     if not d.online:
         return ("discover/offline", f"V3 device registered under {endian}-endian udpid not online after auto-connect; device saw {res['log']}")
     hs = [x for x in res["log"] if x[0] == "hs_req"]
+    if case.get("outage"):
+        return None          # attempts made during the outage are not constrained; the retry succeeded with the right credentials
     if endian == "big":
         if len(hs) < 2 or hs[0][1] is not False or hs[-1][1] is not True:
             return ("discover/endian-order", f"handshake attempts {hs}")
@@ -234,6 +253,10 @@ def run(ctx) -> None:
     ctx.hyp("token", token_cases, lambda c: _run_one(ctx, c), ctx.n(1000, 128000))
     disc_cases = st.fixed_dictionaries({"leg": st.just("discovery"), "id": gens.device_ids(48).filter(lambda i: i.to_bytes(6, "little") != i.to_bytes(6, "big")),
                                         "endian": st.sampled_from(["little", "big"]), "port": st.sampled_from([6444, 6444, 7000])},
-                                       optional={"account": text, "password": text, "region": st.sampled_from(["US", "DE", "KR"])}).map(
+                                       optional={"outage": st.fixed_dictionaries({}, optional={
+                                           "/v1/user/login/id/get": st.lists(st.sampled_from(["timeout", "timeout", "http500", "connect", "api:3101"]), min_size=1, max_size=3),
+                                           "/v1/user/login": st.lists(st.sampled_from(["timeout", "http500", "api:3102"]), min_size=1, max_size=3),
+                                           "/v1/iot/secure/getToken": st.lists(st.sampled_from(["timeout", "timeout", "http404", "api:3106"]), min_size=1, max_size=3)}),
+                                                 "account": text, "password": text, "region": st.sampled_from(["US", "DE", "KR"])}).map(
         lambda c: c if ("account" in c) == ("password" in c) else {k: v for k, v in c.items() if k not in ("account", "password")})
     ctx.hyp("discovery", disc_cases, lambda c: _run_one(ctx, c), ctx.n(150, 9600))
